@@ -62,6 +62,18 @@ M = {
   ('in-place update', 'sourcer/translator.py', "    if updates:\n        node = node._replace(**updates)\n", "    if updates:\n        for k, v in updates.items():\n            setattr(node, k, v)\n"),
   ('metadata shared not copied', 'sourcer/translator.py', "                    node._metadata.update(prev._metadata)\n", "                    node._metadata = prev._metadata\n"),
  ],
+ 'C09': [
+  ('column restarts at 1', 'sourcer/translator.py', "            current_line += 1\n            current_column = 0", "            current_line += 1\n            current_column = 1"),
+  ('caret at col', 'sourcer/translator.py', "        return text[start : end] + _caret_at(col - 1)", "        return text[start : end] + _caret_at(col)"),
+  ('chop-start caret +3', 'sourcer/translator.py', "_caret_at(pos - (end - 90) + 4)", "_caret_at(pos - (end - 90) + 3)"),
+  ('revert F16', 'sourcer/translator.py', "    elif end - pos < 42:", "    elif end - pos < 40:"),
+  ('chop-end caret', 'sourcer/translator.py', "        return text[start : start + 90] + ' ...' + _caret_at(col - 1)", "        return text[start : start + 90] + ' ...' + _caret_at(col)"),
+  ('both-ends window 41', 'sourcer/translator.py', "text[pos - 42 : pos + 42] + ' ...' + _caret_at(42 + 4)", "text[pos - 41 : pos + 42] + ' ...' + _caret_at(42 + 4)"),
+  ('col<60 -> col<=60... wait 90', 'sourcer/translator.py', "    if col < 60:", "    if col < 92:"),
+  ('partial uses start line', 'sourcer/translator.py', "        line, col = line_numbers[pos], column_numbers[pos]\n        position = _Position(pos, line, col)", "        line, col = line_numbers[max(0, pos - 1)], column_numbers[pos]\n        position = _Position(pos, line, col)"),
+  ('eof gives line numbers', 'sourcer/translator.py', "                with out.IF(Code('len')(TEXT) <= POS):", "                with out.IF(Code('len')(TEXT) < POS):"),
+  ('excerpt end search from pos', 'sourcer/translator.py', "match = _compile_re('\\n').search(text, pos + 1)", "match = _compile_re('\\n').search(text, pos + 2)"),
+ ],
  'C03': [
   ('sep drop pop', 'sourcer/expressions/sep.py', "                    with out.IF(staging):\n                        out += staging.pop()\n", "                    pass\n"),
   ('sep require_separator empty', 'sourcer/expressions/sep.py', "Code(f'not {staging} or {saw_separator}')", "Code(f'{saw_separator}')"),
